@@ -71,8 +71,9 @@ def run_property(prop, tier, seed, quiet=False, only_key=None):
             report.write_evidence(prop, tier, seed, ctx, info.get('explanation', ''), wall, nviol, nknown, extra,
                                   info.get('exhaustive', False), info.get('trusted_base'))
             return 2
-    report.write_evidence(prop, tier, seed, ctx, info.get('explanation', ''), wall, nviol, nknown, extra,
-                          info.get('exhaustive', False), info.get('trusted_base'))
+    if not os.environ.get('PSA_NO_EVIDENCE'):
+        report.write_evidence(prop, tier, seed, ctx, info.get('explanation', ''), wall, nviol, nknown, extra,
+                              info.get('exhaustive', False), info.get('trusted_base'))
     if os.environ.get('PSA_LIST'):
         for o in ctx.obs:
             print(f"  [{'ok' if o.ok else 'KNOWN' if o.known else 'VIOL'}] {o.rule} {o.func}:{o.line} {o.instance} :: {o.fact[:160]}")
